@@ -19,7 +19,8 @@ func init() {
 			"(X) a 1xx interim status neither latches the banner writer nor triggers the frame; " +
 			"(T) predicate truth tables: isHTMLRequest is false for every method but GET and otherwise Contains(Accept, \"text/html\"); isFrameableHTMLResponse is false for every status but 200, false for attachments, true only from the Content-Type loop (text/html, application/xhtml+xml); isAlreadyFramed constants; the cache / frame-option header constants; " +
 			"(S) shim: every store to resp.Body and every resp.Header mutation in the ModifyResponse function is unreachable when Content-Type does not contain \"html\"; the new body is MultiReader(prefix, original body) closed through the original body; the script is inserted by strings.Replace(prefix, \"<head>\", \"<head>\"+script, 1) — or, if the code indexes and slices instead, index and slice operate on the same string. " +
-			"(M) rendered pages and spliced prefixes live in call-owned memory (no sync.Pool, no buffer captured by the per-response hook); (P) hostProxy sets only Transport, FlushInterval and ModifyResponse on the backend-facing proxy (a Director that drops Accept-Encoding would recode every non-HTML body).",
+			"(M) rendered pages and spliced prefixes live in call-owned memory (no sync.Pool, no buffer captured by the per-response hook); (P) hostProxy sets only Transport, FlushInterval and ModifyResponse on the backend-facing proxy (a Director that drops Accept-Encoding would recode every non-HTML body). " +
+			"On the already-framed branch only the cache and X-Frame-Options headers may change.",
 		Assumptions: []string{"strings.Replace with n=1 replaces the first occurrence; io.MultiReader concatenates without loss"},
 		Run:         runC14,
 	})
@@ -32,6 +33,22 @@ func runC14(c *Ctx) {
 	c.Rule("C14.T", "predicate truth tables and constants", 9)
 	c.Rule("C14.S", "shim splice gated by the HTML content type; body preserved", 5)
 	const bpkg = ModPath + "/agent/banner"
+
+	// the two header effects, through the helpers or written out in place
+	headerSet := func(i ssa.Instruction, key string, val func(string) bool) bool {
+		if !IsCall(i, "(net/http.Header).Set") {
+			return false
+		}
+		k, ok1 := ConstString(CallOf(i).Args[1])
+		v, ok2 := ConstString(CallOf(i).Args[2])
+		return ok1 && ok2 && canonicalHeaderKey(k) == key && val(v)
+	}
+	isNotCacheable := func(i ssa.Instruction) bool {
+		return IsCall(i, bpkg+".setNotCacheable") || headerSet(i, "Cache-Control", func(v string) bool { return strings.Contains(v, "no-store") && strings.Contains(v, "no-cache") })
+	}
+	isSameOrigin := func(i ssa.Instruction) bool {
+		return IsCall(i, bpkg+".setXFrameOptionsSameOrigin") || headerSet(i, "X-Frame-Options", func(v string) bool { return strings.EqualFold(v, "sameorigin") })
+	}
 	const T = "agent/banner.bannerResponseWriter"
 
 	// ---- C14.G
@@ -125,7 +142,24 @@ func runC14(c *Ctx) {
 				if !IsCall(i, "(net/http.ResponseWriter).Write") {
 					return false
 				}
-				return CallResult(Args(CallOf(i))[1], 0, "(*"+bpkg+".bannerResponseWriter).getBanner") != nil
+				if CallResult(Args(CallOf(i))[1], 0, "(*"+bpkg+".bannerResponseWriter).getBanner") != nil {
+					return true
+				}
+				// the rendering helper under another name/shape: what is written derives from the
+				// result of a function of the banner package (the rendered frame), not from a caller's slice
+				derived := false
+				SliceBack(Args(CallOf(i))[1], func(v ssa.Value) bool {
+					if call, ok := v.(*ssa.Call); ok && strings.HasPrefix(CalleeName(call.Common()), bpkg+".") {
+						derived = true
+					}
+					if ex, ok := v.(*ssa.Extract); ok {
+						if call, ok := ex.Tuple.(*ssa.Call); ok && strings.HasPrefix(strings.TrimPrefix(strings.TrimPrefix(CalleeName(call.Common()), "(*"), "("), bpkg+".") {
+							derived = true
+						}
+					}
+					return true
+				})
+				return derived
 			}
 			isWB := func(i ssa.Instruction) bool {
 				st, ok := i.(*ssa.Store)
@@ -181,8 +215,24 @@ func runC14(c *Ctx) {
 			if h := must(e, isFwd); h != nil {
 				bad = "a path returns without forwarding the status"
 			}
-			if h := reach(e, func(i ssa.Instruction) bool { return IsCall(i, bpkg+".setNotCacheable") }); h == nil {
+			if h := reach(e, isNotCacheable); h == nil {
 				bad = "the cache headers are not set"
+			}
+			if h := reach(e, func(i ssa.Instruction) bool {
+				if !IsCall(i, "(net/http.Header).Del", "(net/http.Header).Set", "(net/http.Header).Add") {
+					return false
+				}
+				k, isC := ConstString(CallOf(i).Args[1])
+				if !isC {
+					return true
+				}
+				switch canonicalHeaderKey(k) {
+				case "Cache-Control", "Date", "Expires", "Pragma", "X-Frame-Options":
+					return false
+				}
+				return true
+			}); h != nil {
+				bad = "another header is changed at " + p.Pos(h.Pos()) + " although the original body passes through (e.g. Content-Encoding/Content-Length deleted for the frame)"
 			}
 			c.Check("C14.G", "WriteHeader:already-framed-gets-original-body", p, wh.Pos(), bad == "", "frameable and already framed ⇒ uncacheable + same-origin headers, no frame, original body", "for an already framed HTML page: "+bad)
 			// frameable, not framed
@@ -194,7 +244,7 @@ func runC14(c *Ctx) {
 			if h := reach(e, isWB); h != nil {
 				bad = "body pass-through is enabled although the frame is served: the original document follows the frame"
 			}
-			if reach(e, func(i ssa.Instruction) bool { return IsCall(i, bpkg+".setNotCacheable") }) == nil || reach(e, func(i ssa.Instruction) bool { return IsCall(i, bpkg+".setXFrameOptionsSameOrigin") }) == nil {
+			if reach(e, isNotCacheable) == nil || reach(e, isSameOrigin) == nil {
 				bad = "the frame is not marked uncacheable and same-origin-frameable"
 			}
 			c.Check("C14.G", "WriteHeader:frame-replaces-body", p, wh.Pos(), bad == "", "frameable and not framed ⇒ frame written, marked uncacheable/sameorigin, original body discarded", "for a frameable HTML page: "+bad)
@@ -397,7 +447,20 @@ func runC14(c *Ctx) {
 		})
 		c.Check("C14.T", "isAlreadyFramed:referer-path", p, f.Pos(), okRef, "the referer only counts when its path equals the request's", "the referer test no longer compares the paths")
 	}
-	if f := c.need(p, "C14.T", "agent/banner.setNotCacheable"); f != nil {
+	inlineIn := func(pred func(ssa.Instruction) bool) bool {
+		found := false
+		if wh := p.Func("agent/banner.(*bannerResponseWriter).WriteHeader"); wh != nil {
+			EachInstr(wh, func(i ssa.Instruction) {
+				if pred(i) && IsCall(i, "(net/http.Header).Set") {
+					found = true
+				}
+			})
+		}
+		return found
+	}
+	if p.Func("agent/banner.setNotCacheable") == nil {
+		c.Check("C14.T", "setNotCacheable:constants", p, 0, inlineIn(isNotCacheable), "Cache-Control: no-cache, no-store is set in place in WriteHeader", "neither setNotCacheable nor an in-place Cache-Control: no-cache, no-store exists")
+	} else if f := c.need(p, "C14.T", "agent/banner.setNotCacheable"); f != nil {
 		got := map[string]string{}
 		for _, call := range Calls(f, "(net/http.Header).Set") {
 			k, _ := ConstString(CallOf(call).Args[1])
@@ -406,7 +469,9 @@ func runC14(c *Ctx) {
 		}
 		c.Check("C14.T", "setNotCacheable:constants", p, f.Pos(), strings.Contains(got["Cache-Control"], "no-store") && strings.Contains(got["Cache-Control"], "no-cache") && got["Pragma"] == "no-cache", "Cache-Control: no-cache, no-store, …; Pragma: no-cache", fmt.Sprintf("setNotCacheable sets %v", got))
 	}
-	if f := c.need(p, "C14.T", "agent/banner.setXFrameOptionsSameOrigin"); f != nil {
+	if p.Func("agent/banner.setXFrameOptionsSameOrigin") == nil {
+		c.Check("C14.T", "setXFrameOptions:constant", p, 0, inlineIn(isSameOrigin), "X-Frame-Options: sameorigin is set in place in WriteHeader", "neither setXFrameOptionsSameOrigin nor an in-place X-Frame-Options: sameorigin exists")
+	} else if f := c.need(p, "C14.T", "agent/banner.setXFrameOptionsSameOrigin"); f != nil {
 		ok := false
 		for _, call := range Calls(f, "(net/http.Header).Set") {
 			k, _ := ConstString(CallOf(call).Args[1])
